@@ -116,6 +116,18 @@ def simplify_test(e: ast.expr) -> ast.expr:
         if inner is not e.operand:
             return _loc(ast.UnaryOp(op=ast.Not(), operand=inner), e)  # type: ignore[return-value]
         return e
+    if isinstance(e, ast.IfExp):
+        # boolean-valued conditional expressions in a test position
+        t, a, b = e.test, e.body, e.orelse
+        if isinstance(a, ast.Constant) and a.value is False:
+            return simplify_test(_loc(ast.BoolOp(op=ast.And(), values=[negate(t), b]), e))  # type: ignore[arg-type]
+        if isinstance(a, ast.Constant) and a.value is True:
+            return simplify_test(_loc(ast.BoolOp(op=ast.Or(), values=[t, b]), e))  # type: ignore[arg-type]
+        if isinstance(b, ast.Constant) and b.value is False:
+            return simplify_test(_loc(ast.BoolOp(op=ast.And(), values=[t, a]), e))  # type: ignore[arg-type]
+        if isinstance(b, ast.Constant) and b.value is True:
+            return simplify_test(_loc(ast.BoolOp(op=ast.Or(), values=[negate(t), a]), e))  # type: ignore[arg-type]
+        return e
     if isinstance(e, ast.BoolOp):
         vals: List[ast.expr] = []
         for v in e.values:
@@ -312,6 +324,11 @@ class BlockCanon:
                     stmts.pop()
                     i = max(0, i - 1)  # the new last statement now is in tail position
                     continue
+            if isinstance(st, ast.Assign) and len(st.targets) == 1 and isinstance(st.targets[0], ast.Name) and isinstance(st.value, ast.Name) \
+                    and st.value.id == st.targets[0].id:
+                self.changed = True
+                stmts[i] = _loc(ast.Pass(), st)  # type: ignore[assignment]
+                continue
             if isinstance(st, ast.Pass) and len(stmts) > 1:
                 self.changed = True
                 stmts.pop(i)
@@ -368,6 +385,11 @@ class BlockCanon:
 
     # -- C4
     def _lift_ifexp(self, st: ast.stmt) -> Optional[List[ast.stmt]]:
+        if isinstance(st, ast.Expr) and isinstance(st.value, ast.Yield) and isinstance(st.value.value, ast.IfExp):
+            ie = st.value.value
+            a = _loc(ast.Expr(value=_loc(ast.Yield(value=ie.body), st)), st)
+            b = _loc(ast.Expr(value=_loc(ast.Yield(value=ie.orelse), st)), st)
+            return [_loc(ast.If(test=simplify_test(ie.test), body=[a], orelse=[b]), st)]  # type: ignore[list-item]
         if isinstance(st, ast.Return) and isinstance(st.value, ast.IfExp):
             ie = st.value
             a = _loc(ast.If(test=simplify_test(ie.test), body=[_loc(ast.Return(value=ie.body), st)], orelse=[]), st)
@@ -1124,6 +1146,49 @@ class HelperInliner:
         done = self._inline_exprs(fn, st, cls, self_name, local_defs)
         if done:
             return [st]
+        # a helper call nested in the statement that is not expression-like: hoist it into its own
+        # statement when it is the first effectful thing the statement evaluates, then inline that
+        hoisted = self._hoist(fn, st, cls, self_name, local_defs)
+        if hoisted is not None:
+            return hoisted
+        return None
+
+    def _hoist(self, fn, st, cls, self_name, local_defs) -> Optional[List[ast.stmt]]:
+        if isinstance(st, (ast.While, ast.AugAssign, ast.Try) + FuncNode):
+            return None
+        heads = SingleUseInliner._header_exprs(st)
+        if not heads:
+            return None
+        h = heads[0]
+        si = SingleUseInliner(fn)
+        for c in ast.walk(h):
+            if not isinstance(c, ast.Call) or c is h and isinstance(st, (ast.Expr, ast.Return, ast.Assign)):
+                continue
+            r = self._resolve(c, cls, self_name, local_defs)
+            if r is None:
+                continue
+            if si._inside_repeated(h, c):
+                continue
+            anc = si._ancestors(h, c)
+            pos = (getattr(c, "lineno", 0), getattr(c, "col_offset", 0))
+            if any(isinstance(o, ast.Call) and not any(o is a for a in anc) and o is not c and not any(o is x for x in ast.walk(c))
+                   and (getattr(o, "lineno", 0), getattr(o, "col_offset", 0)) < pos for o in ast.walk(h)):
+                continue
+            self.counter += 1
+            tmp = f"{r[0].name.strip('_')}_result{self.counter}"
+            asg = _loc(ast.Assign(targets=[ast.Name(id=tmp, ctx=ast.Store())], value=c), c)
+            rep = self._inline_stmt(fn, asg, c, "assign", *r)
+            if rep is None:
+                return None
+
+            class Sub(ast.NodeTransformer):
+                def visit_Call(self, node):
+                    if node is c:
+                        return _loc(ast.Name(id=tmp, ctx=ast.Load()), c)
+                    return self.generic_visit(node)
+
+            Sub().visit(st)
+            return rep + [st]
         return None
 
     def _own_exprs(self, st: ast.stmt):
